@@ -252,7 +252,9 @@ class TlsExtensionServerNameClient(TlsExtensionParsed):
         server_name = bytes(bytearray(parser['server_name']))
         try:
             host_name = six.ensure_text(server_name, 'idna')
-            six.ensure_binary(host_name, 'idna')  # a label longer than 63 bytes decodes but cannot be encoded
+            # the name as compose() writes it: a label longer than 63 bytes decodes but cannot be encoded, and
+            # nameprep folds the case of an internationalised label
+            host_name = six.ensure_text(six.ensure_binary(host_name, 'idna'), 'idna')
         except UnicodeError as e:
             six.raise_from(InvalidValue(server_name, cls, 'host_name'), e)
 
